@@ -8,6 +8,7 @@ import (
 	"os"
 	"path/filepath"
 	"sort"
+	"sync"
 	"testing"
 
 	"github.com/paulsonkoly/chess-3/tools/tuner/epd"
@@ -27,6 +28,7 @@ type fileSpec struct {
 	RangeEnd   int    `json:"range_end"`
 	Bytes      bool   `json:"arbitrary_bytes"`   // line content incl. trailing \r, tab, space, 0xff
 	Interleave bool   `json:"interleaved_reads"` // all chunks of a batch open at once, read round-robin
+	Concurrent bool   `json:"concurrent_reads"`  // one goroutine per chunk of a batch, as the client's workers
 }
 
 type witness struct {
@@ -280,6 +282,33 @@ func fileCase(r *ev.Run, dir string, fs fileSpec) {
 		prevEnd = b.End
 		r.Count("batches", 1)
 		cprev := b.Start
+		if fs.Concurrent {
+			var cks []tuning.Range
+			for ck := range tuning.Chunks(b) {
+				cks = append(cks, ck)
+			}
+			parts := make([][][]byte, len(cks))
+			errs := make([]error, len(cks))
+			var wg sync.WaitGroup
+			for i, ck := range cks {
+				wg.Add(1)
+				go func(i int, ck tuning.Range) {
+					defer wg.Done()
+					parts[i], errs[i] = readRange(c, fs.Epoch, ck.Start, ck.End)
+				}(i, ck)
+			}
+			wg.Wait()
+			for i, ck := range cks {
+				if errs[i] != nil {
+					r.Violation("C20:read-error", wit, fmt.Sprintf("concurrent chunk %+v epoch %d: %v", ck, fs.Epoch, errs[i]))
+					return
+				}
+				covered += ck.Len()
+				all = append(all, parts[i]...)
+				r.Count("chunks_read_concurrently", 1)
+			}
+			continue
+		}
 		if fs.Interleave {
 			// the client's workers keep several chunks of one Chunker open at the same time
 			var cks []tuning.Range
@@ -387,7 +416,7 @@ func TestCheck(t *testing.T) {
 		r.Finish()
 		return
 	}
-	asan := r.Stage == "asan"
+	asan := r.Stage == "asan" || r.Stage == "race"
 	// (a) the shuffle: every n in [1,N] x epochs 0..15 and random 64-bit epochs; powers of two +-1
 	maxN := uint64(r.N(6000, 20000))
 	if asan {
@@ -472,6 +501,10 @@ func TestCheck(t *testing.T) {
 		fs.Interleave = true
 		fs.Epoch++
 		fileCase(r, dir, fs)
+		fs.Interleave, fs.Concurrent = false, true
+		fs.Epoch++
+		fileCase(r, dir, fs)
+		fs.Concurrent = false
 		fs.RangeStart = rng.IntN(sizes[i])
 		fs.RangeEnd = fs.RangeStart + 1 + rng.IntN(sizes[i]-fs.RangeStart)
 		fs.Seed = rng.Uint64()
@@ -506,7 +539,7 @@ func TestCheck(t *testing.T) {
 		r.Distinct(1 << 43)
 	}
 	r.Finish("shuffle_permutations_checked", "files", "sub_ranges", "batches", "chunks", "files_with_blank_lines_middle", "files_with_blank_lines_runs", "files_with_blank_lines_start",
-		"files_with_blank_lines_end", "files_with_blank_lines_everywhere", "large_file_bytes", "chunks_read_interleaved")
+		"files_with_blank_lines_end", "files_with_blank_lines_everywhere", "large_file_bytes", "chunks_read_interleaved", "chunks_read_concurrently")
 }
 
 var _ = bytes.Equal
